@@ -64,6 +64,15 @@ func genPlan(t *rapid.T, tune func(t *rapid.T, p *Plan)) Plan {
 	case 1:
 		p.PadBytes = 1500 + vfhelp.PickN(t, "padbig", 3000)
 	}
+	if p.SnapEntries > 0 {
+		switch vfhelp.Pick(t, "snappad", 3) {
+		case 0:
+			// several blocks / chunks: 4.5 - 7 MiB
+			p.SnapPadKB = 4608 + vfhelp.PickN(t, "snappadbig", 2560)
+		case 1, 2:
+			p.SnapPadKB = 1 + vfhelp.PickN(t, "snappadsmall", 300)
+		}
+	}
 	if vfhelp.Pick(t, "aux", 1) == 1 {
 		p.AuxPct = 5 + vfhelp.PickN(t, "auxpct", 20)
 	}
@@ -171,7 +180,7 @@ func runE6(t *testing.T, prof e6Profile) {
 		}
 		for name, on := range map[string]bool{"cfg-witness": p.Witness, "cfg-nonvoting": p.NonVoting, "cfg-entry-compression": p.EntryCompress,
 			"cfg-snapshot-compression": p.SnapCompress, "cfg-no-checkquorum": p.NoCheckQuorum, "cfg-notify-commit": p.NotifyCommit,
-			"cfg-max-inmem-log-size": p.MaxInMemBytes > 0, "cfg-padded-commands": p.PadBytes > 0, "cfg-prevote": p.PreVote} {
+			"cfg-max-inmem-log-size": p.MaxInMemBytes > 0, "cfg-big-snapshot-images": p.SnapPadKB >= 4096, "cfg-padded-commands": p.PadBytes > 0, "cfg-prevote": p.PreVote} {
 			if on {
 				labels = append(labels, name)
 			}
@@ -207,7 +216,7 @@ func runE6(t *testing.T, prof e6Profile) {
 
 // (a snapshot whose content is not the state at the index it is stamped with makes
 // acknowledged writes disappear or come back after a restart from it)
-var famE6C01 = set("linearizability-violated", "write-applied-twice", "command-payload-altered", "replicas-applied-different-entries", "snapshot-content-not-at-snapshot-index", "installed-snapshot-content-not-at-snapshot-index")
+var famE6C01 = set("linearizability-violated", "write-applied-twice", "command-payload-altered", "snapshot-image-altered", "replicas-applied-different-entries", "snapshot-content-not-at-snapshot-index", "installed-snapshot-content-not-at-snapshot-index")
 var famE6C04 = set("term-not-durable", "vote-not-durable", "ack-not-durable", "commit-advertised-before-durable",
 	"two-votes-one-term", "recovered-term-lower", "restart-failed", "restart-panics-commit-outside-log-range", "linearizability-violated", "completed-request-never-applied")
 var famE6C11 = set("call-after-close", "exclusive-calls-overlap", "update-index-not-increasing", "ondisk-update-at-or-below-open-index",
@@ -217,7 +226,7 @@ var famE6C11 = set("call-after-close", "exclusive-calls-overlap", "update-index-
 var famE6C12 = set("completed-with-foreign-result", "dropped-request-applied", "completed-request-never-applied", "no-terminal-result", "two-results",
 	"committed-then-dropped", "committed-notified-never-applied", "logquery-wrong-range", "logquery-undecodable-entry", "logquery-returned-uncommitted-entry", "snapshot-request-completed-without-snapshot")
 
-var famE6C02 = set("replicas-applied-different-entries", "update-index-not-increasing", "write-applied-twice", "command-payload-altered",
+var famE6C02 = set("replicas-applied-different-entries", "update-index-not-increasing", "write-applied-twice", "command-payload-altered", "snapshot-image-altered",
 	"replica-state-differs-at-same-index", "ondisk-update-at-or-below-open-index", "snapshot-content-not-at-snapshot-index", "installed-snapshot-content-not-at-snapshot-index")
 var famE6C06 = set("stale-read", "read-returned-unapplied-value", "linearizability-violated", "read-no-terminal-result")
 
@@ -254,7 +263,7 @@ func TestVF_C02_Cluster(t *testing.T) {
 		}})
 }
 
-var famE6C08 = set("log-compacted-beyond-durable-snapshot", "restart-failed", "restart-panics-commit-outside-log-range",
+var famE6C08 = set("snapshot-image-altered", "log-compacted-beyond-durable-snapshot", "restart-failed", "restart-panics-commit-outside-log-range",
 	"replica-state-differs-at-same-index", "snapshot-content-not-at-snapshot-index", "installed-snapshot-content-not-at-snapshot-index", "update-index-not-increasing",
 	"ondisk-update-at-or-below-open-index", "replicas-applied-different-entries", "completed-request-never-applied")
 
